@@ -546,3 +546,22 @@ func WriteYAMLAnchored(path string, cmds []Cmd) error {
 	}
 	return os.WriteFile(path, []byte(b.String()), 0o644)
 }
+
+// FirstAlnumWord: the first run of three or more ASCII letters in s, lower-cased ("" when there is none).
+func FirstAlnumWord(s string) string {
+	start := -1
+	for i := 0; i <= len(s); i++ {
+		isL := i < len(s) && ((s[i] >= 'a' && s[i] <= 'z') || (s[i] >= 'A' && s[i] <= 'Z'))
+		if isL {
+			if start < 0 {
+				start = i
+			}
+			continue
+		}
+		if start >= 0 && i-start >= 3 {
+			return strings.ToLower(s[start:i])
+		}
+		start = -1
+	}
+	return ""
+}
